@@ -63,4 +63,16 @@ CORPUS = [
         'self.steps = state_dict.get("steps", self.steps)', benign=True),
     Mut('c17-benign-massmatrix-saves-more', AD, 'MassMatrixAdaptor.load_state_dict', 'self._call_counter = state_dict["call_counter"]',
         'self._call_counter = int(state_dict["call_counter"])', benign=True),
+    Mut('c17-checkpoint-before-scheduler-step', 'torchtree/optim/optimizer.py', '', "            if self.scheduler is not None:\n                self.scheduler.step()\n\n            for logger in self.loggers:\n                logger(self._epoch)\n",
+        "            for logger in self.loggers:\n                logger(self._epoch)\n", expect=[('C17.P', 'Optimizer._run')], mode='text',
+        more=[dict(scope='', old="                    self.save_full_state(self.checkpoint)\n\n            self._epoch += 1\n\n        for logger in self.loggers:\n            logger.close()",
+                   new="                    self.save_full_state(self.checkpoint)\n\n            if self.scheduler is not None:\n                self.scheduler.step()\n\n            self._epoch += 1\n\n        for logger in self.loggers:\n            logger.close()", mode='text')]),
+    Mut('c17-benign-print-after-checkpoint', 'torchtree/optim/optimizer.py', '', "                    self.save_full_state(self.checkpoint)\n\n            self._epoch += 1\n\n        for logger in self.loggers:\n            logger.close()",
+        "                    self.save_full_state(self.checkpoint)\n                    print('checkpoint written')\n\n            self._epoch += 1\n\n        for logger in self.loggers:\n            logger.close()", benign=True, mode='text'),
+    Mut('c17-update-parameters-suffix-test', 'torchtree/core/utils.py', '', "        if 'type' in json_object and json_object['type'] in (\n            'torchtree.core.parameter.Parameter',\n            'torchtree.Parameter',\n            'Parameter',\n        ):",
+        "        if 'type' in json_object and json_object['type'].endswith('Parameter'):", expect=[('C17.E', 'update_parameters::descends-into-derived-parameters')], mode='text'),
+    Mut('c17-benign-update-parameters-last-component', 'torchtree/core/utils.py', '', "        if 'type' in json_object and json_object['type'] in (\n            'torchtree.core.parameter.Parameter',\n            'torchtree.Parameter',\n            'Parameter',\n        ):",
+        "        if 'type' in json_object and json_object['type'].split('.')[-1] == 'Parameter':", benign=True, mode='text'),
+    Mut('c17-main-injects-before-expanding-plates', 'torchtree/torchtree.py', '', "    remove_comments(data)\n    expand_plates(data)\n\n    others = {}", "    others = {}", expect=[('C17.E', 'main::plates-expanded-before-saved-tensors-are-injected')], mode='text',
+        more=[dict(scope='', old="    dic = {}\n    try:", new="    remove_comments(data)\n    expand_plates(data)\n    dic = {}\n    try:", mode='text')]),
 ]
